@@ -1218,6 +1218,8 @@ def _register_required_structure_hooks(
         lsp_types.NotebookDocumentFilterScheme,
         lsp_types.NotebookDocumentFilterPattern,
     ]:
+        if object_ is None:
+            return None
         if isinstance(object_, str):
             return str(object_)
         elif "notebookType" in object_:
@@ -1228,6 +1230,15 @@ def _register_required_structure_hooks(
             return converter.structure(object_, lsp_types.NotebookDocumentFilterScheme)
         else:
             return converter.structure(object_, lsp_types.NotebookDocumentFilterPattern)
+
+    def _string_or_string_list_hook(
+        object_: Any, _: type
+    ) -> Optional[Union[str, Sequence[str]]]:
+        if object_ is None:
+            return None
+        if isinstance(object_, str):
+            return object_
+        return [converter.structure(item, str) for item in object_]
 
     NotebookSelectorItem = attrs.fields(
         lsp_types.NotebookCellTextDocumentFilter
@@ -1259,6 +1270,7 @@ def _register_required_structure_hooks(
             _notebook_filter_hook,
         ),
         (NotebookSelectorItem, _notebook_filter_hook),
+        (Optional[NotebookSelectorItem], _notebook_filter_hook),
         (
             Union[lsp_types.LSPObject, Sequence["LSPAny"], str, int, float, bool, None],
             _lsp_object_hook,
@@ -1279,6 +1291,8 @@ def _register_required_structure_hooks(
             Union[str, Tuple[int, int]],
             _parameter_information_label_hook,
         ),
+        (Optional[Union[str, Sequence[str]]], _string_or_string_list_hook),
+        (Union[str, Sequence[str]], _string_or_string_list_hook),
         (lsp_types.LSPObject, _lsp_object_hook),
     ]
 
